@@ -483,3 +483,33 @@ def gen_nested_case(r):
     if r.random() < 0.3:
         conf = decorate_raw(r, conf)
     return nested_schema_str(NESTED), conf, tag
+
+
+# ------------------------------------------------------------------ text after a complete value, for every value kind
+TRAIL_KINDS = ["B", "I", "R", "S", "U", "L", "V", "J", "N2", "T3", "Y3", "W", "B!", "R!"]
+TRAIL_FAMILIES = ["junk-word", "keyword-and-value", "open-brace", "close-brace", "brace-pair", "second-value"]
+
+
+def gen_trailing_cases(r):
+    """for every value kind: a GOOD value followed, on the same line, by a junk word / another keyword of the schema with its
+       value / a brace.  Returns [(schema string, conf bytes, kind, family, must_reject)]"""
+    out = []
+    for kind in TRAIL_KINDS:
+        for fam in TRAIL_FAMILIES:
+            k1, k2 = r.sample([k for k in KEYWORDS if k not in ("s", "colvar_")], 2)
+            other_kind = r.choice(["B", "R", "I"])
+            v1 = value_for(r, kind, True)
+            if kind.rstrip("!") == "B" and not v1:
+                v1 = "on"
+            v2 = value_for(r, other_kind, True) or "on"
+            tail = {"junk-word": "junk", "keyword-and-value": "%s %s" % (k2, v2), "open-brace": "{", "close-brace": "}",
+                    "brace-pair": "{ x }", "second-value": v1}[fam]
+            line = "%s %s %s" % (k1, v1, tail)
+            conf = (line + "\n").encode()
+            # a list of strings legitimately takes further words; everything else must be refused
+            must = not (kind == "W" and fam in ("junk-word", "keyword-and-value", "second-value"))
+            if kind in ("V", "J", "Y3") and fam == "second-value":
+                must = False                      # one more number in a list of numbers is a longer list
+            sch = "%s:%s,%s:%s" % (kind, hx(k1), other_kind, hx(k2))
+            out.append((sch, conf, kind, fam, must))
+    return out
